@@ -36,7 +36,30 @@ func PushScenario(t *rapid.T) sim.Scenario {
 	var hcallbacks []int // handler nonces that issue callbacks
 	var pending []int    // parked handler nonces
 	nextK := 0
-	stopped := false
+	stopped, restarted := false, false
+	if sc.Cfg.AllowPush && rapid.IntRange(0, 6).Draw(t, "restartfocus") == 0 {
+		// Restart-focused prefix: callbacks outstanding when the server stops, the
+		// same Server started again at once, new callbacks while the waiters of
+		// the old ones are (often, by a pin) still on their way.
+		if rapid.IntRange(0, 2).Draw(t, "slowwaiter") != 0 {
+			sc.Cfg.Pins = append(sc.Cfg.Pins, sim.Pin{Site: "srv.waitcb.lock", Delay: pick(t, "wdelay", []int{9000, 50000, 200000})})
+		}
+		for j, m := 0, rapid.IntRange(1, 4).Draw(t, "old"); j < m; j++ {
+			pushes++
+			callbacks = append(callbacks, pushes)
+			sc.Steps = append(sc.Steps, sim.Step{Op: "push", Push: "callback", K: pushes, D: pick(t, "deadline", []int{0, 0, 3000}), Burst: rapid.Bool().Draw(t, "b")})
+		}
+		sc.Steps[len(sc.Steps)-1].Burst = false
+		sc.Steps = append(sc.Steps, sim.Step{Op: pick(t, "stopkind", []string{"stop", "peerclose"}), Burst: true},
+			sim.Step{Op: "restartnow", Burst: true})
+		callbacks = nil
+		for j, m := 0, rapid.IntRange(1, 3).Draw(t, "new"); j < m; j++ {
+			pushes++
+			callbacks = append(callbacks, pushes)
+			sc.Steps = append(sc.Steps, sim.Step{Op: "push", Push: "callback", K: pushes, D: pick(t, "deadline", []int{0, 3000}), Burst: j < m-1 || rapid.Bool().Draw(t, "b")})
+		}
+		restarted = true
+	}
 	for i := 0; i < n; i++ {
 		var st sim.Step
 		roll := rapid.IntRange(0, 99).Draw(t, "op")
@@ -91,6 +114,11 @@ func PushScenario(t *rapid.T) sim.Scenario {
 		case roll < 94 && !stopped:
 			stopped = true
 			st = sim.Step{Op: pick(t, "stopkind", []string{"stop", "peerclose"})}
+		case roll < 97 && stopped && !restarted:
+			// the same Server value serves a new connection while callbacks of the
+			// old one may still be winding down
+			restarted = true
+			st = sim.Step{Op: "restartnow"}
 		default:
 			nextK++
 			st = sim.Step{Op: "send", Rec: engine.Bytes(pick(t, "stray", []string{
